@@ -441,7 +441,12 @@ def stepDriver (d : DSt) (op implObs : String) : DSt × String × List String :=
       -- (when the event that wedged or killed the loop came from a peer it is C08's business as well)
       (d, "alive", [s!"C04 loop-{implObs.takeWhile (· ≠ ':')} op={toks.headD ""}"] ++
         (if ["msg", "peer", "disconnect", "snub", "snubclose", "dhtpeers", "dialhold"].contains (toks.headD "") then
-          [s!"C08 loop-{implObs.takeWhile (· ≠ ':')} op={toks.headD ""}"] else []))
+          [s!"C08 loop-{implObs.takeWhile (· ≠ ':')} op={toks.headD ""}"] else []) ++
+        -- (adding and starting a torrent always terminates, whatever its description says: C06's business too when
+        -- the loop wedges in a start / verification, or in the message that completes the metadata)
+        (if ["start", "verify", "new", "reload", "crashcheck"].contains (toks.headD "") ||
+            (toks.headD "" = "msg" && kvStr toks "t" = "metadata") then
+          [s!"C06 loop-{implObs.takeWhile (· ≠ ':')} op={toks.headD ""}"] else []))
     else
     -- stub trackers: mode changes; whether a stop that happens now would wait for a silent tracker
     let trk : TrkSt :=
@@ -596,7 +601,12 @@ def stepDriver (d : DSt) (op implObs : String) : DSt × String × List String :=
       let implCrash := ((impl.find? fun (k, _) => k = "crash").map (·.2)).getD ""
       let padViol := (if (implSto.splitOn ".pad/").length ≥ 2 then [s!"C02 padding-file-touched-on-disk sto={implSto.replace " " "_"}"] else []) ++
         (if implCrash.startsWith "padondisk" then [s!"C02 padding-file-touched-on-disk after-restart={implCrash}"] else [])
-      let annViol := annViol ++ padViol ++ extViol ++ (extViol.map fun v => v.replace "C11 extension-message" "C13 extension-message")
+      -- C04: a stopping or stopped torrent runs no periodical announcer (only the announcer of the `stopped` event)
+      let implW := commaList (((impl.find? fun (k, _) => k = "workers").map (·.2)).getD "-")
+      let implS := ((impl.find? fun (k, _) => k = "st").map (·.2)).getD ""
+      let liveAnn := if (implS = "Stopped" || implS = "Stopping") && implW.any (fun w => w.startsWith "ann" && w ≠ "ann0") then
+          [s!"C04 stopped-torrent-runs-an-announcer st={implS} workers={",".intercalate implW}"] else []
+      let annViol := annViol ++ liveAnn ++ padViol ++ extViol ++ (extViol.map fun v => v.replace "C11 extension-message" "C13 extension-message")
       ({ s := some st2, parked := parked, implDials := implDials, knownPeers := known, trk := trk, startWhileStopping := sws, verifyPending := vp, noListen := noListen, looseDials := looseDials, metaIds := metaIds },
         renderObs st2 r.verdict outs1 impl dlTok trk.ntrk anns noListen
           -- the IPs of pending outgoing handshakes to the hold sink (not modelled) count as connected while the
